@@ -8,7 +8,10 @@
  *          1: start; add(compound); taskpool_wait(compound); context_wait
  *          2: add(compound); start; taskpool_wait(compound); context_wait
  *     spin: seed of the busy wait inside the bodies (0 = none); seed: schedule seed of the model side (unused here)
- *     member j has <nt> tasks in <w> chains (compound_pool.jdf)
+ *     member j has <nt> tasks in <w> chains (compound_pool.jdf); a member written "b" is a bare
+ *     taskpool (PARSEC_OBJ_NEW(parsec_taskpool_t): no detector, no startup hook, nothing to do): it
+ *     terminates inside parsec_context_add_taskpool, its on_enqueue runs after that; its enqueue stamp
+ *     is counted (enq) but takes no part in seq / clast / tpw
  *   one member: parsec_compose(tp, NULL) returns tp itself; its own completion callback
  *   plays the role of the compound's.
  *
@@ -32,7 +35,7 @@
 #define MAXT 512
 #define GATE_MS 400
 
-typedef struct { int n, threads, mode, spin; char sched[32]; int nt[MAXP], w[MAXP]; } case_t;
+typedef struct { int n, threads, mode, spin; char sched[32]; int nt[MAXP], w[MAXP], bare[MAXP]; } case_t;
 static case_t C;
 
 static volatile int64_t t_begin[MAXP][MAXT], t_end[MAXP][MAXT];
@@ -82,6 +85,7 @@ static int parse_case(const char *line, case_t *c) {
         while (*s == ' ' || *s == ';') s++;
         if (!*s) break;
         int nt, w, used = 0;
+        if (*s == 'b') { if (c->n >= MAXP) return 0; c->bare[c->n] = 1; c->nt[c->n] = 0; c->w[c->n] = 1; c->n++; s++; continue; }
         if (sscanf(s, "%d %d%n", &nt, &w, &used) != 2) return 0;
         if (c->n >= MAXP || nt < 0 || nt > MAXT || w < 1) return 0;
         c->nt[c->n] = nt; c->w[c->n] = w; c->n++;
@@ -107,7 +111,8 @@ static void crt_run_case(const char *line, FILE *out) {
 
     parsec_taskpool_t *tp[MAXP], *c = NULL;
     for (int j = 0; j < C.n; j++) {
-        tp[j] = (parsec_taskpool_t *)parsec_compound_pool_new(&crt_dc, j, C.nt[j], C.w[j]);
+        if (C.bare[j]) { tp[j] = PARSEC_OBJ_NEW(parsec_taskpool_t); tp[j]->taskpool_name = strdup("bare"); }
+        else tp[j] = (parsec_taskpool_t *)parsec_compound_pool_new(&crt_dc, j, C.nt[j], C.w[j]);
         parsec_taskpool_set_enqueue_callback(tp[j], cb_enq, (void *)(intptr_t)j);
         c = parsec_compose(c, tp[j]);
     }
@@ -137,6 +142,7 @@ static void crt_run_case(const char *line, FILE *out) {
     int64_t maxend_prev = 0;           /* max end stamp over members < j */
     for (int j = 0; j < C.n; j++) {
         int64_t e = s_enq[j];
+        if (C.bare[j]) continue;
         if (n_enq[j] >= 1) { if (e <= maxend_prev) seq = 0; }
         int64_t mx = 0;
         for (int k = 0; k < MAXT; k++) {
